@@ -1,10 +1,12 @@
 /- Line-protocol driver: one op per line on stdin, one answer per line on stdout. -/
 import Driver.Core
 import Driver.Sec
+import Driver.Txn
 open Drv
 
 structure St where
   core : CoreSt := {}
+  txn : TxnSt := {}
 
 def step (s : St) (line : String) : St × String :=
   match (line.trimAscii.toString.splitOn " ").filter (· ≠ "") with
@@ -13,6 +15,7 @@ def step (s : St) (line : String) : St × String :=
   | "SET" :: args => let (c, o) := stepSet s.core args; ({ s with core := c }, o)
   | "KNN" :: args => let (c, o) := stepKnn s.core args; ({ s with core := c }, o)
   | "SEC" :: args => (s, stepSec args)
+  | "TXN" :: args => let (c, o) := stepTxn s.txn args; ({ s with txn := c }, o)
   | _ => (s, "bad-op")
 
 partial def loop (h : IO.FS.Stream) (out : IO.FS.Stream) (s : St) : IO Unit := do
